@@ -700,7 +700,7 @@ func c15Run(id int, b c15Beh, conc c15Conc, root string, _ []string) (res c15Res
 		return res
 	}
 	for _, k := range b.Fin.KF {
-		if k == "KF-C15-4" {
+		if k == "REF-REUSED" {
 			// a ref was re-issued: the replay of the untruncated log is not a meaningful reference any
 			// more (two series records with one ref); only RefClosed on the real entries is judged.
 			res.replays = 1
